@@ -934,6 +934,12 @@ func directAnswer(in ssa.Instruction) bool {
 // callees of a writer-passing call, with dynamic types excluded by a dominating failed comma-ok assertion.
 func (a *answerAnalysis) callees(call *ssa.Call) []*ssa.Function {
 	cals := ir.Callees(a.c.G, call)
+	// a function value taken from a table of bound methods: judge the methods, not their wrappers
+	for i, f := range cals {
+		if f.Synthetic != "" && strings.Contains(f.Synthetic, "bound") {
+			cals[i] = unbound(f)
+		}
+	}
 	if !call.Call.IsInvoke() {
 		return cals
 	}
